@@ -9,7 +9,7 @@ CHECKS = {
     engine="vsched",
     category="model_checking",
     technique="stateless model checking of the implementation: controlled scheduler over the instrumented repository, all interleavings (happens-before cached) / preemption-bounded DFS",
-    text="Every interleaving of 1-2 consumers with 1-3 producers (plus close/reset/Discard racing) over the real pollQueue, the real packetQueue and the real polling.ServerTransport is executed under a controlled scheduler in virtual time; oracles: no packet waits for a timer, no empty answer while packets are queued, nothing lost/duplicated/reordered, packets added before close are sent. The lost wake-up the property is about lives in a window of a few instructions between a check and a wait, which only an exhaustive scheduler can place a producer into.",
+    text="Every interleaving of 1-2 consumers with 1-3 producers (plus close/reset/Discard racing) over the real pollQueue, the real packetQueue and the real polling.ServerTransport is executed under a controlled scheduler in virtual time; oracles: no packet waits for a timer, no empty answer while packets are queued, nothing lost/duplicated/reordered, packets added before close are sent. The lost wake-up the property is about lives in a window of a few instructions between a check and a wait, which only an exhaustive scheduler can place a producer into. Two overlapping polls with a slow-reading client (a response takes 1 s to write, a packet every 0.5 s must leave the queue when sent).",
     note="Trusted: vsched's semantics of mutex/channel/select/timer (litmus-validated), the instrumenter's rewrite of go/select/close/time.*; scope: <=2 consumers, <=3 producers, <=3 packets per add.",
     design="3/C19"),
 }
@@ -18,7 +18,7 @@ CHECKS["C18"] = dict(
     engine="vsched",
     category="model_checking",
     technique="explicit-state BFS over operation histories on the real registries against a reference list model, plus exhaustive interleaving exploration (controlled scheduler) of racing occurrences",
-    text="Every history of On/Once/Off(0..3 handlers incl. duplicates)/OffAll/fire over 3 handlers (one plain function, two closures of one literal) and 1-2 events (one name a prefix of the other) up to depth 4-5 is replayed on a fresh real handlerStore / eventHandlerStore and through the public wrappers Server.*NewNamespace, Namespace.*Event, ServerSocket.*Event, ServerSocket.*Error (run under the scheduler in virtual time so asynchronous fan-out has finished when observed), and compared step by step with a list model; states are deduplicated by the model's canonical form. All interleavings of 2-3 racing occurrences with Off/On decide the at-most-once part.",
+    text="Every history of On/Once/Off(0..3 handlers incl. duplicates)/OffAll/fire over 3 handlers (one plain function, two closures of one literal) and 1-2 events (one name a prefix of the other) up to depth 4-5 is replayed on a fresh real handlerStore / eventHandlerStore and through the public wrappers Server.*NewNamespace, Namespace.*Event, ServerSocket.*Event, ServerSocket.*Error (run under the scheduler in virtual time so asynchronous fan-out has finished when observed), and compared step by step with a list model; states are deduplicated by the model's canonical form. All interleavings of 2-3 racing occurrences with Off/On decide the at-most-once part. Overlapping occurrences with a late registration over On lists of every small capacity; a handlerStore carrying a library subscription (checked after every operation); a ClientSocket's handlers with occurrences buffered before the CONNECT reply.",
     note="Trusted: reference model (two lists per event); vsched semantics; scope: 3 handlers, 2 events, depth 3-5.",
     design="3/C18")
 
@@ -26,7 +26,7 @@ CHECKS["C03"] = dict(
     engine="vsched",
     category="model_checking",
     technique="stateless model checking of the implementation under a controlled scheduler with virtual time; deviation-bounded DFS where 'a timer fires early' is a deviation; narrow ackHandler harness explored unbounded",
-    text="Reply/timer races are enumerated instead of sampled: the real ackHandler against its timeout goroutine (all interleavings), sio.Server over a harness-implemented eio socket whose protocol-level client answers with right/duplicate/unknown ack ids, text and binary ACKs, before/at/after the timeout, a late acknowledgement of a previous session of the same client arriving on its new session, with the connection cut mid-flight and 1-3 acks outstanding, and the Go client offline (0-3 attachments buffered, then connect and emit again) and online over an in-process polling link. Each scenario runs with an exact virtual clock (the winner is then determined) and with early-timer deviations (any instruction may take arbitrarily long; exactly-once and reply content are judged). Oracle: invocation count and arguments of every user callback, no frame of a timed-out packet sent, socket usable afterwards, no mutex held, no deadlock.",
+    text="Reply/timer races are enumerated instead of sampled: the real ackHandler against its timeout goroutine (all interleavings), sio.Server over a harness-implemented eio socket whose protocol-level client answers with right/duplicate/unknown ack ids, text and binary ACKs, before/at/after the timeout, a late acknowledgement of a previous session of the same client arriving on its new session, with the connection cut mid-flight and 1-3 acks outstanding, and the Go client offline (0-3 attachments buffered, then connect and emit again) and online over an in-process polling link. Each scenario runs with an exact virtual clock (the winner is then determined) and with early-timer deviations (any instruction may take arbitrarily long; exactly-once and reply content are judged). Oracle: invocation count and arguments of every user callback, no frame of a timed-out packet sent, socket usable afterwards, no mutex held, no deadlock. Unencodable arguments with ack timeouts (offline, online, from the server); the ACK frames of server and client handlers (0/1/2/nil/binary arguments, ids up to MaxUint64, root and custom namespace) compared with the v5 form on the wire.",
     note="Trusted: vsched semantics and virtual clock; in-process RoundTripper for TCP; scope: <=3 acks outstanding, deviation bound 1 (quick) / 2 (thorough) for whole-stack scenarios.",
     design="3/C03")
 
@@ -42,7 +42,7 @@ CHECKS["C12"] = dict(
     engine="vsched",
     category="model_checking",
     technique="bounded exhaustive enumeration of middleware chains executed on the real server under the controlled scheduler (virtual time), plus deviation-bounded exploration of concurrent connects",
-    text="Every namespace-middleware chain of length <= 3 over {accept, join+accept, reject with error / string / struct, join+reject} plus chains of 4-5 with one rejection at each position, on '/' and '/custom', is run against the real sio.Server through a harness-implemented Engine.IO socket; the oracle is the statement itself: invocation order is a prefix of registration order ending at the first rejection, exactly one CONNECT or CONNECT_ERROR carrying the rejection, connection handlers only for admitted sockets, and no trace of a rejected socket in the namespace list, the adapter's raw room indexes or the connection. 2-3 clients connecting at once with a middleware blocked on a gate are explored to the deviation bound. Per-socket event middlewares: chains of <= 2 x six handler signatures (no args, string, int, string+int, with ack) x accept/reject; and chains over {accept, reject, reject iff the first argument is 'bad'} x seven sets of 1-3 On/Once handlers on the same event x seven sequences of 1-3 accepted/rejected occurrences (also of an unrelated event): a rejected occurrence reaches no handler, an accepted one reaches each registered handler exactly once after the whole chain has seen it.",
+    text="Every namespace-middleware chain of length <= 3 over {accept, join+accept, reject with error / string / struct, join+reject} plus chains of 4-5 with one rejection at each position, on '/' and '/custom', is run against the real sio.Server through a harness-implemented Engine.IO socket; the oracle is the statement itself: invocation order is a prefix of registration order ending at the first rejection, exactly one CONNECT or CONNECT_ERROR carrying the rejection, connection handlers only for admitted sockets, and no trace of a rejected socket in the namespace list, the adapter's raw room indexes or the connection. 2-3 clients connecting at once with a middleware blocked on a gate are explored to the deviation bound. Per-socket event middlewares: chains of <= 2 x six handler signatures (no args, string, int, string+int, with ack) x accept/reject; and chains over {accept, reject, reject iff the first argument is 'bad'} x seven sets of 1-3 On/Once handlers on the same event x seven sequences of 1-3 accepted/rejected occurrences (also of an unrelated event): a rejected occurrence reaches no handler, an accepted one reaches each registered handler exactly once after the whole chain has seen it. Admission on a recovery-enabled server (no pid, unknown pid, pid without offset); two goroutines (or a goroutine and a client's CONNECT) setting one namespace up at once.",
     note="Trusted: vsched semantics; rig R1 (harness speaks Socket.IO frames by hand). Scope: chains <= 5, <= 3 concurrent clients, bound 3 (quick) / 4 (thorough), one less for 3 clients and for the closed-during-chain scenarios.",
     design="3/C12")
 
@@ -50,7 +50,7 @@ CHECKS["C06"] = dict(
     engine="vsched",
     category="model_checking",
     technique="stateless model checking of the implementation (deviation-bounded DFS under a controlled scheduler, virtual time) over a cause x phase matrix, plus fault enumeration: a scripted polling session cut at every byte",
-    text="Every termination cause (client DISCONNECT frame, Disconnect(false/true), Engine.IO close with each of its five reasons, protocol error, packet for an unjoined namespace, connect timeout) in every phase (before CONNECT, namespace middleware blocked, connected idle, burst in either direction, two namespaces) and every unordered pair of causes at once is executed on the real sio.Server over a harness-implemented Engine.IO socket and explored to the deviation bound; Server.Close, Manager.Close, client Disconnect, Disconnect(true) and a black-holed link run sio<->sio over the in-process polling link; the same API causes, and the new pipe being cut, strike at every half latency (k*L/2, k=0..7) of a transport upgrade over the duplex pipe of rig R4 (real upgrade state machines); Server.Close, Manager.Close and client Disconnect issued right after Connect() (while the Engine.IO handshake, the CONNECT packet and the admission are under way), judged per connected period of the client socket; a scripted Socket.IO-over-polling session has every request body truncated and every response failed at every byte (262 cut points). Oracle: disconnecting <= 1 and before disconnect, disconnect exactly once with a reason naming an injected cause, no event handler after it, and nothing left in the namespace list, the adapter's raw room indexes, the connection's socket table or the Engine.IO session store; the old sid answers 'unknown sid'.",
+    text="Every termination cause (client DISCONNECT frame, Disconnect(false/true), Engine.IO close with each of its five reasons, protocol error, packet for an unjoined namespace, connect timeout) in every phase (before CONNECT, namespace middleware blocked, connected idle, burst in either direction, two namespaces) and every unordered pair of causes at once is executed on the real sio.Server over a harness-implemented Engine.IO socket and explored to the deviation bound; Server.Close, Manager.Close, client Disconnect, Disconnect(true) and a black-holed link run sio<->sio over the in-process polling link; the same API causes, and the new pipe being cut, strike at every half latency (k*L/2, k=0..7) of a transport upgrade over the duplex pipe of rig R4 (real upgrade state machines); Server.Close, Manager.Close and client Disconnect issued right after Connect() (while the Engine.IO handshake, the CONNECT packet and the admission are under way), judged per connected period of the client socket; a scripted Socket.IO-over-polling session has every request body truncated and every response failed at every byte (262 cut points). Oracle: disconnecting <= 1 and before disconnect, disconnect exactly once with a reason naming an injected cause, no event handler after it, and nothing left in the namespace list, the adapter's raw room indexes, the connection's socket table or the Engine.IO session store; the old sid answers 'unknown sid'. Two CONNECTs admitted for one namespace before the connection ends; a server burst carried over to a pipe that breaks at the first carried-over frame (the failed write is reported from inside Send).",
     note="Trusted: vsched semantics; rigs R1/R3 (no real TCP; a dead client is modelled by requests that stop and bodies/responses that fail mid-way); the upgrade phase uses C07's rig R4 (a pipe, not a real WebSocket). Scope: bound 2 (quick) / 3 (thorough) after a default-schedule set-up.",
     design="3/C06")
 CHECKS["C11"] = dict(
@@ -65,7 +65,7 @@ CHECKS["C05"] = dict(
     engine="vsched",
     category="model_checking",
     technique="explicit-state BFS over protocol-level operation histories replayed on the real server against a reference routing model, plus deviation-bounded schedule exploration of server and Go client under a controlled scheduler",
-    text="Server: BFS (canonical state = joined namespaces per connection + how each departed socket left, so a rejoin after every way of leaving is explored) over CONNECT / CONNECT whose connection handler kicks the socket / EVENT / EVENT+ack / DISCONNECT / server-side kick / nsp.Emit / socket.Emit / a cross-namespace ack race on 2 connections x the look-alike namespaces '/', '/a', '/ab', '/a/b' plus a non-existent one; every history is replayed on the real sio.Server through harness-implemented Engine.IO sockets and compared after every step with a routing model (frames per connection, handler invocations and disconnect reports per socket, namespace socket lists, connection closed iff an unjoined namespace was addressed). Two connections in look-alike namespaces run concurrently to the bound. Go client: a raw Engine.IO endpoint (the repo's eio.Server driven by hand) answers the CONNECTs of a 3-socket Manager in all 6 orders with events placed before/after each reply; a second namespace is connected and used at once on an open connection against a real server. A socket that leaves its namespace around its connection handler (kicked by the handler, kicked by a racing DisconnectSockets, client DISCONNECT during a slow handler) and then rejoins is explored to bound 3: the other namespace keeps working, the rejoin is admitted as a new socket, the connection stays open.",
+    text="Server: BFS (canonical state = joined namespaces per connection + how each departed socket left, so a rejoin after every way of leaving is explored) over CONNECT / CONNECT whose connection handler kicks the socket / EVENT / EVENT+ack / DISCONNECT / server-side kick / nsp.Emit / socket.Emit / a cross-namespace ack race on 2 connections x the look-alike namespaces '/', '/a', '/ab', '/a/b' plus a non-existent one; every history is replayed on the real sio.Server through harness-implemented Engine.IO sockets and compared after every step with a routing model (frames per connection, handler invocations and disconnect reports per socket, namespace socket lists, connection closed iff an unjoined namespace was addressed). Two connections in look-alike namespaces run concurrently to the bound. Go client: a raw Engine.IO endpoint (the repo's eio.Server driven by hand) answers the CONNECTs of a 3-socket Manager in all 6 orders with events placed before/after each reply; a second namespace is connected and used at once on an open connection against a real server. A socket that leaves its namespace around its connection handler (kicked by the handler, kicked by a racing DisconnectSockets, client DISCONNECT during a slow handler) and then rejoins is explored to bound 3: the other namespace keeps working, the rejoin is admitted as a new socket, the connection stays open. The Go client leaves a namespace while its CONNECT reply is in flight (latency on poll answers) and rejoins it next to an idle second namespace.",
     note="Trusted: routing model; rigs R1/R2/R3; vsched semantics. Scope: 2 connections, 5 namespaces, BFS depth 3 (quick) / 4 (thorough), bound 1-2 (quick) / 2-3 (thorough).",
     design="3/C05")
 CHECKS["C09"] = dict(
@@ -87,7 +87,7 @@ CHECKS["C15"] = dict(
     engine="vsched",
     category="model_checking",
     technique="exhaustive grid over the back-off function with the random draw scripted; real Manager<->Server pair under the controlled scheduler in virtual time for outage enumeration (fault enumeration) and deviation-bounded exploration of offline traffic",
-    text="Back-off: full grid of (delay, max, jitter incl. invalid ones, attempt 0..70 and overflowing values, 21 random draws): delay in (0, max], first delay from ReconnectionDelay, no panic. Reconnect machine: the first connection is cut abruptly and the next j = 0..5 dials fail (refused at once, or after a 20 s dial timeout) with attempt limit 0..5, plus two outages in a row; the timestamped reconnect_attempt / reconnect_error / reconnect_failed / reconnect / connect / disconnect events are judged exactly in virtual time. Offline traffic: all 24 orders of {plain, volatile, ack, ack+timeout} emitted between the application's disconnect and connect callbacks, before/during/after placements, a server that greets with an ack request, and an emitter on another goroutine that emits at the very moment the reconnection completes (racing the client's handling of the CONNECT reply), explored to the deviation bound: non-volatile events arrive exactly once on the new session, volatile ones never, each ack callback once.",
+    text="Back-off: full grid of (delay, max, jitter incl. invalid ones, attempt 0..70 and overflowing values, 21 random draws): delay in (0, max], first delay from ReconnectionDelay, no panic. Reconnect machine: the first connection is cut abruptly and the next j = 0..5 dials fail (refused at once, or after a 20 s dial timeout) with attempt limit 0..5, plus two outages in a row; the timestamped reconnect_attempt / reconnect_error / reconnect_failed / reconnect / connect / disconnect events are judged exactly in virtual time. Offline traffic: all 24 orders of {plain, volatile, ack, ack+timeout} emitted between the application's disconnect and connect callbacks, before/during/after placements, a server that greets with an ack request, and an emitter on another goroutine that emits at the very moment the reconnection completes (racing the client's handling of the CONNECT reply), explored to the deviation bound: non-volatile events arrive exactly once on the new session, volatile ones never, each ack callback once. Back-off read from the object the real NewManager built; outages after Manager.OffAll().",
     note="Trusted: vsched virtual clock; in-process link as the network (dial = handshake request). Handler-entry order is not judged here (C02 known finding). Server handlers are registered in a namespace middleware (before the CONNECT reply); the async-connection-handler race is C01's.",
     design="3/C15")
 CHECKS["C17"] = dict(
@@ -102,14 +102,14 @@ CHECKS["C04"] = dict(
     engine="vsched",
     category="model_checking",
     technique="exhaustive enumeration of membership matrices x (T,E), explicit-state BFS over membership histories on the real adapter and the real server against a reference set model (with a differential oracle between histories reaching the same state), and exhaustive interleaving exploration of a broadcast racing membership changes under interval semantics",
-    text="Adapter level: all 2^9 membership matrices of 3 sockets x 3 rooms (plus variants) x all 8x8 (T,E) x {Broadcast, Sockets, FetchSockets, operator paths} against {s | (T empty or rooms(s) meets T) and rooms(s) disjoint E}, each recipient exactly once; BFS over AddAll/Delete/DeleteAll/AddSockets/DelSockets/DisconnectSockets histories covering the whole 9^3 state space with index invariants and the model in every state. Server level (every history on the in-memory adapter and, with connection state recovery on, on the session-aware adapter, whose Broadcast is a separate code path): 3 real server sockets over harness-implemented Engine.IO sockets, histories of Join/Leave/Disconnect/client DISCONNECT/SocketsJoin/SocketsLeave/DisconnectSockets, every (T,E) through the namespace and through each socket (sender never reached, disconnected socket in no room). Concurrent: one Broadcast(T,E) racing 1-2 membership changes, all interleavings, interval oracle.",
+    text="Adapter level: all 2^9 membership matrices of 3 sockets x 3 rooms (plus variants) x all 8x8 (T,E) x {Broadcast, Sockets, FetchSockets, operator paths} against {s | (T empty or rooms(s) meets T) and rooms(s) disjoint E}, each recipient exactly once; BFS over AddAll/Delete/DeleteAll/AddSockets/DelSockets/DisconnectSockets histories covering the whole 9^3 state space with index invariants and the model in every state. Server level (every history on the in-memory adapter and, with connection state recovery on, on the session-aware adapter, whose Broadcast is a separate code path): 3 real server sockets over harness-implemented Engine.IO sockets, histories of Join/Leave/Disconnect/client DISCONNECT/SocketsJoin/SocketsLeave/DisconnectSockets, every (T,E) through the namespace and through each socket (sender never reached, disconnected socket in no room). Concurrent: one Broadcast(T,E) racing 1-2 membership changes, all interleavings, interval oracle. Selections are also built by chaining one room per call; a namespace middleware joins / leaves rooms before the socket is connected.",
     note="Trusted: reference set model; vsched semantics; deterministic golang-set iteration in the overlay (thread-unsafe sets only). Known finding: a socket that left its own-id room receives its own broadcasts (same as the Node.js reference).",
     design="3/C04")
 CHECKS["C08"] = dict(
     engine="vsched",
     category="model_checking",
     technique="bounded exhaustive enumeration of broadcast histories x disconnect points x reconnection times on the real session-aware adapter in virtual time (controlled scheduler), against a reference log model with a three-valued expectation; plus server-level and Go-client replays",
-    text="Adapter level: every history of length <= 3 (quick) / <= 4 + text-only 5 (thorough) over 20 emit kinds (to all / room / room except room / except the session / direct / other sid / with ack id / the session's own To(room) (in the target room and excluded) / two rooms except the other session, text and binary) x both orders of the persisted session's room list, 10 s or 35 s apart, every disconnect point k, reconnection 1/59/61/119/121/181 s after the disconnect (0-2 passes of the production 60 s cleaner, both sides of the 120 s window), two sessions recovering from the same log. Expectation: must recover / must not / may either (offset packet itself older than the window); oracle: recovered => persisted sid and rooms and exactly the model's missed packets in order, no duplicate, no gap. Server level over harness-implemented Engine.IO sockets (incl. two outages in a row of 1/61/119 s and 59/61/119 s, whose sum exceeds the window while each stays inside it: the window counts from the latest disconnection): same sid/pid, replayed frames decode to exactly the missed events with byte-identical attachments, unknown pid/offset or expiry => fresh session. Go client over the in-process link: Recovered() and exactly the missed events once, arguments intact, for six handler signatures.",
+    text="Adapter level: every history of length <= 3 (quick) / <= 4 + text-only 5 (thorough) over 20 emit kinds (to all / room / room except room / except the session / direct / other sid / with ack id / the session's own To(room) (in the target room and excluded) / two rooms except the other session, text and binary) x both orders of the persisted session's room list, 10 s or 35 s apart, every disconnect point k, reconnection 1/59/61/119/121/181 s after the disconnect (0-2 passes of the production 60 s cleaner, both sides of the 120 s window), two sessions recovering from the same log. Expectation: must recover / must not / may either (offset packet itself older than the window); oracle: recovered => persisted sid and rooms and exactly the model's missed packets in order, no duplicate, no gap. Server level over harness-implemented Engine.IO sockets (incl. two outages in a row of 1/61/119 s and 59/61/119 s, whose sum exceeds the window while each stays inside it: the window counts from the latest disconnection): same sid/pid, replayed frames decode to exactly the missed events with byte-identical attachments, unknown pid/offset or expiry => fresh session. Go client over the in-process link: Recovered() and exactly the missed events once, arguments intact, for six handler signatures. Scripted: a dead peer noticed 1/5/25 s late and a client 1-2 packets behind its offset (missed packets older than the session, expired but still logged).",
     note="Trusted: reference log model (packets with an ack id are not logged, as in the reference implementation); vsched virtual clock. Never alarms in the may-either zone.",
     design="3/C08")
 CHECKS["C13"] = dict(
@@ -131,7 +131,7 @@ CHECKS["C01"] = dict(
     engine="vsched",
     category="model_checking",
     technique="stateless model checking of the real client/server pair under a controlled scheduler (deviation-bounded DFS with happens-before caching) plus an exhaustive shape x boundary-size x transport x direction x recovery matrix over real loopback I/O",
-    text="Schedules: real sio.Manager(s) and sio.Server joined by an in-process polling link; 2 emitter threads per direction (plus a namespace broadcaster with 2 clients), 7 argument shapes (none, int, unicode string, struct with Binary, map with Binary leaf, two Binary args incl. an empty one, trailing string) on event names of which one is a prefix of the other, plus events nobody listens to, recovery off and on; explored to the deviation bound; oracle: the multiset of rendered (event, arguments) seen by each side's handlers equals the emitted one (nothing lost, duplicated, altered or given to another event's handler). Matrix (companion binary, plain build, real HTTP/WebSocket on loopback): 10 argument shapes (nested slices, pointers, 0-4 attachments) x total sizes {0, 1, 125, 126, 32767..32769, 65535..65537, MaxBufferSize-64, MaxBufferSize} x {polling, websocket, polling->websocket after UpgradeDone} x both directions x recovery off/on, and 3-client broadcasts; one event at a time followed by a barrier event, digest comparison.",
+    text="Schedules: real sio.Manager(s) and sio.Server joined by an in-process polling link; 2 emitter threads per direction (plus a namespace broadcaster with 2 clients), 7 argument shapes (none, int, unicode string, struct with Binary, map with Binary leaf, two Binary args incl. an empty one, trailing string) on event names of which one is a prefix of the other, plus events nobody listens to, recovery off and on; explored to the deviation bound; oracle: the multiset of rendered (event, arguments) seen by each side's handlers equals the emitted one (nothing lost, duplicated, altered or given to another event's handler). Matrix (companion binary, plain build, real HTTP/WebSocket on loopback): 10 argument shapes (nested slices, pointers, 0-4 attachments) x total sizes {0, 1, 125, 126, 32767..32769, 65535..65537, MaxBufferSize-64, MaxBufferSize} x {polling, websocket, polling->websocket after UpgradeDone} x both directions x recovery off/on, and 3-client broadcasts; one event at a time followed by a barrier event, digest comparison. Interleaved connections: 2-3 protocol-level connections each send one packet frame by frame, every merge of the frame sequences is played.",
     note="Trusted: vsched semantics; in-process link for the schedule part; the matrix runs in real time (60 s deadlines are caps, not verdicts; 'lost' is judged 15 s after the barrier event arrived). Known finding: an event that arrives before the server's asynchronous connection handler registered its handlers is dropped. Sizes between the boundary values, 16 emitters and schedules over a real WebSocket are not covered.",
     design="3/C01")
 
@@ -147,7 +147,7 @@ CHECKS["C16"] = dict(
     engine="vsched",
     category="model_checking",
     technique="stateless model checking of two-thread API programs under a controlled scheduler in a -race build: the race detector judges every explored schedule under its true happens-before relation; deadlock and held-mutex detection by the scheduler",
-    text="Every unordered pair (including an operation with itself) of operations from a 26-operation server alphabet (Emit with/without ack/binary, Join, Leave, Rooms, namespace and room broadcasts, On/Off handlers, Use, Disconnect(false/true), SocketsJoin, DisconnectSockets, FetchSockets, Server.Close, incoming events/acks/binary events/DISCONNECT/transport close, another client's CONNECT), an 18-operation Go-client alphabet (a Manager with two connected sockets; incl. a third namespace connecting, the other socket disconnecting and the link breaking, which starts the reconnection machinery) and a 10-operation adapter alphabet (in-memory and session-aware; incl. a Broadcast whose argument cannot be encoded, recovered by the caller) runs as a two-thread program; every server operation is also issued from inside an event handler, a disconnecting handler and an ack callback against concurrent operations (about 850 programs). All schedules to the deviation bound are executed in a -race build in which the scheduler's own hand-offs are hidden from TSan and every modelled primitive publishes exactly its Go-memory-model edge, so a report is a race under the explored schedule's real happens-before relation; verdicts: TSan report whose racing access lies in repository code, a thread blocked for ever on a lock/WaitGroup (incl. lock cycles and locks held by exited threads), a mutex held by an exited thread at quiescence, an uncaught panic.",
+    text="Every unordered pair (including an operation with itself) of operations from a 26-operation server alphabet (Emit with/without ack/binary, Join, Leave, Rooms, namespace and room broadcasts, On/Off handlers, Use, Disconnect(false/true), SocketsJoin, DisconnectSockets, FetchSockets, Server.Close, incoming events/acks/binary events/DISCONNECT/transport close, another client's CONNECT), an 18-operation Go-client alphabet (a Manager with two connected sockets; incl. a third namespace connecting, the other socket disconnecting and the link breaking, which starts the reconnection machinery) and a 10-operation adapter alphabet (in-memory and session-aware; incl. a Broadcast whose argument cannot be encoded, recovered by the caller) runs as a two-thread program; every server operation is also issued from inside an event handler, a disconnecting handler and an ack callback against concurrent operations (about 850 programs). All schedules to the deviation bound are executed in a -race build in which the scheduler's own hand-offs are hidden from TSan and every modelled primitive publishes exactly its Go-memory-model edge, so a report is a race under the explored schedule's real happens-before relation; verdicts: TSan report whose racing access lies in repository code, a thread blocked for ever on a lock/WaitGroup (incl. lock cycles and locks held by exited threads), a mutex held by an exited thread at quiescence, an uncaught panic. A client socket with Retries/AckTimeout (packet queue) under the pair alphabet; 7 client operations issued from inside client-side handlers (manager error after a failed dial, connect, disconnect, event, ack).",
     note="Trusted: the TSan integration (self-tested by harness/racetest at set-up: locked pair silent, unlocked pair reported); channel operations publish a slightly stronger edge than Go guarantees (can hide, never invent a race); memory-order effects beyond happens-before are not produced. Scope: 2 threads x 1 operation, bound 1 (quick) / 2 (thorough); the quantifier's random 2..16-goroutine programs and GOMAXPROCS variation are replaced by exhaustive small-scope enumeration.",
     design="3/C16")
 
